@@ -651,6 +651,16 @@ def r3b_local_prefix_scan(ctx):
         raise AnalysisError('C13.R3: Local.list_files missing')
     cands = [lf] + list(lf.all_nested()) + [m for m in local.methods.values() if m is not lf and any(isinstance(a, ast.Attribute) and a.attr == m.name for a in ast.walk(lf.node))]
     scanners = [f for f in cands if any((dotted(c.func) or '') == 'os.scandir' for c in calls_in(f.node))]
+    call_of = {}
+    if not scanners:
+        # the scan was delegated to a module-level helper (utils.fs): judge the helper under the arguments of the call
+        for c in calls_in(lf.node):
+            nm = (dotted(c.func) or '').rsplit('.', 1)[-1]
+            for m in corpus.modules.values():
+                h = m.functions.get(nm)
+                if h is not None and any((dotted(x.func) or '') == 'os.scandir' for x in calls_in(h.node)):
+                    scanners.append(h)
+                    call_of[h.key] = c
     ctx.floor('C13.R3', 'function of Local that opens the listing directory', len(scanners))
     for f in scanners:
         ctx.analysed(f)
@@ -658,7 +668,7 @@ def r3b_local_prefix_scan(ctx):
         scans = [x for c in calls_in(f.node) if (dotted(c.func) or '') == 'os.scandir' for x in cfg.nodes_of(enclosing_stmt(c), ('stmt', 'with_enter'))]
         bypass = cfg.path(cfg.entry, [cfg.exit], avoid=scans, kinds=('normal',))
         ctx.check(
-            bypass is None,
+            bypass is None or f.key in call_of,
             'C13.R3',
             f'{func_label(f)}|every-listing-scans-the-prefix-directory',
             loc(f, f.node),
@@ -669,7 +679,19 @@ def r3b_local_prefix_scan(ctx):
         # the entries directly under the prefix directory are classified the way exists / download / upload reach them:
         # through symbolic links (a shard directory moved to another disk and linked back is still part of the store)
         kinds = [c for c in calls_in(f.node) if isinstance(c.func, ast.Attribute) and c.func.attr in ('is_dir', 'is_file')]
-        nofollow = [c for c in kinds if isinstance(kwarg(c, 'follow_symlinks'), ast.Constant) and kwarg(c, 'follow_symlinks').value is False]
+        def _fs_value(c):
+            v = kwarg(c, 'follow_symlinks')
+            if isinstance(v, ast.Name) and f.key in call_of:
+                passed = kwarg(call_of[f.key], v.id)
+                if passed is not None:
+                    return passed
+                a_ = f.node.args
+                for p_, d_ in list(zip(a_.kwonlyargs, a_.kw_defaults)) + list(zip(a_.args[len(a_.args) - len(a_.defaults):], a_.defaults)):
+                    if p_.arg == v.id and d_ is not None:
+                        return d_
+            return v
+
+        nofollow = [c for c in kinds if isinstance(_fs_value(c), ast.Constant) and _fs_value(c).value is False]
         ctx.check(
             not nofollow,
             'C13.R3',
